@@ -18,7 +18,7 @@ ASSUMPTIONS = ['data excludes the acknowledgement\'s own delimiters ~ * : ^ (tha
                'multi-interchange inputs share sender/receiver (which interchange a single 997 should address is not defined by the property)',
                'AK902 is compared only when GE01 is a canonical number; itemisation is checked tree => acknowledgement, not the converse',
                'a logged ERROR record counts as "reported"']
-REQUIRED_COUNTERS = ['injected-positions-checked', 'docs:two-elements-of-one-data-element-wrong-in-one-segment', 'docs:composite-and-one-of-its-components-wrong', 'envelope-discrepancies-checked', 'reader-findings-checked', 'docs:A', 'docs:B', 'docs:with-errors', 'docs:valid', 'ak2-checked', 'ak3-checked', 'ak4-checked', 'ak9-checked', 'acks:997', 'acks:999']
+REQUIRED_COUNTERS = ['docs:hl-with-wrong-number-and-wrong-element', 'injected-positions-checked', 'docs:two-elements-of-one-data-element-wrong-in-one-segment', 'docs:composite-and-one-of-its-components-wrong', 'envelope-discrepancies-checked', 'reader-findings-checked', 'docs:A', 'docs:B', 'docs:with-errors', 'docs:valid', 'ak2-checked', 'ak3-checked', 'ak4-checked', 'ak9-checked', 'acks:997', 'acks:999']
 MIN_CASES = {'quick': 700, 'thorough': 20000}
 WATCHDOG_S = {'quick': 1200, 'thorough': 7200}
 
@@ -328,7 +328,7 @@ def judge(ctx, text, case, full, sigs, mapname='?'):
     for (seg_id, ep, sp, v) in case.get('expect_items', ()):
         # ground truth of a directed family: this too-long value was put at this element / component, so the tree and the acknowledgement
         # must both hold an element-level finding echoing it AT that position (the tree agreeing with the acknowledgement is not enough)
-        if any(e[0] == 'seg' and e[4] == seg_id for e in (res.errors or [])):
+        if any(e[0] == 'seg' and e[4] == seg_id and e[9] not in ('HL1', 'HL2', 'LX', '8', 'SEG1') for e in (res.errors or [])):
             ctx.count('injected-positions:skipped-segment-has-segment-level-findings')      # (not located in the map: its elements are not validated at all)
             continue
         ctx.count('injected-positions-checked')
@@ -340,6 +340,22 @@ def judge(ctx, text, case, full, sigs, mapname='?'):
             a = ref_ack.Ack(res.ack)
             want = '%d' % ep + (':%d' % sp if sp else '')
             hits = [e for g in a.groups for s in g['sets'] for (sid, e) in s['items'] if sid in ('AK4', 'IK4') and len(e) >= 4 and e[3] == v]
+            # ... and under an AK3/IK3 that names the segment (an AK4 right after AK2, or under the previous segment's AK3, is not itemised)
+            owner = None
+            under = []
+            for g in a.groups:
+                for s_ in g['sets']:
+                    owner = None
+                    for (sid, e) in s_['items']:
+                        if sid in ('AK3', 'IK3'):
+                            owner = e[0] if e else None
+                        elif sid in ('AK4', 'IK4') and len(e) >= 4 and e[3] == v:
+                            under.append(owner)
+            if full and under and seg_id not in under:
+                ctx.viol('injected-finding:ak4-not-under-an-ak3-for-its-segment', 'the acknowledgement echoes a wrong value in an AK4/IK4 that does not stand under an AK3/IK3 naming its segment', case,
+                         {'segment': seg_id, 'value': v, 'ak3_above': under[:4]})
+            elif full and not hits and any(e[9] in ('1', '2', '3', '4', '5', '6', '7', '8', '9', '10') for e in in_tree):
+                ctx.viol('injected-finding:not-itemised', 'a wrong value reported in the tree with a standard code is not echoed in any AK4/IK4', case, {'segment': seg_id, 'value': v})
             if hits and not any(e[0].rstrip(':') == want or e[0] == want for e in hits):
                 ctx.viol('injected-finding:not-at-its-element-position:ack', 'the acknowledgement echoes a wrong value under another element position than the one it was put at', case,
                          {'segment': seg_id, 'expected_position': want, 'value': v, 'ak4': hits[:4]})
@@ -422,6 +438,21 @@ def same_data_element_twice(rng, doc):
     return d
 
 
+def numbering_and_element(rng, doc):
+    """one HL (or 837 LX) that is wrong twice: its sequence number (a finding of the reader that has no acknowledgement code of its own) and one
+    of its elements (a finding that has): the element finding must still be itemised under an AK3/IK3 for that segment"""
+    d = faults.clone(doc)
+    hls = [i for i, r in enumerate(d.recs) if r.node.id == 'HL' and len(r.vals) >= 4 and str(r.vals[0]).isdigit()]
+    if not hls:
+        return None
+    i = rng.choice(hls)
+    r = d.recs[i]
+    r.vals[0] = str(int(r.vals[0]) + rng.choice([3, 7]))
+    r.vals[3] = rng.choice(['7', 'X', '22'])          # HL04 is a yes/no code (0 / 1)
+    d.meta = dict(d.meta, expect_items=[('HL', 4, None, r.vals[3])])
+    return d
+
+
 def run(ctx):
     sigs = set()
     n = 0
@@ -468,6 +499,12 @@ def run(ctx):
                 doc = d2
                 kinds.append('same-data-element-twice-in-one-segment')
                 ctx.count('docs:two-elements-of-one-data-element-wrong-in-one-segment')
+        if rng.random() < 0.12:
+            d2 = numbering_and_element(rng, doc)
+            if d2 is not None:
+                doc = d2
+                kinds.append('same-data-element:hl-number-and-element')
+                ctx.count('docs:hl-with-wrong-number-and-wrong-element')
         if rng.random() < 0.3:
             doc = perturb_envelope(rng, doc)
             kinds.append('envelope')
